@@ -84,6 +84,26 @@ def findCore (vs : List V3) (s : Sketch) (pts : List V3) : List Nat :=
 def findShell (vs : List V3) (s : Sketch) (pts : List V3) : List Nat :=
   findFromPoints vs (pickPts pts s.shellOuterPts)
 
+/-! ### what "core" and "outer rim" mean, independently of the quad tables -/
+
+def Sketch.nPts (s : Sketch) : Nat := s.r2.length
+
+def Sketch.rMax (s : Sketch) : Nat := s.r2.foldl max 0
+
+/-- point `k` lies on the outer rim of the sketch: at the largest distance from the centre (within 0.1 %) -/
+def Sketch.isRim (s : Sketch) (k : Nat) : Bool := decide (k < s.nPts) && decide (999 * s.rMax ≤ 1000 * s.r2.getD k 0)
+
+/-- a solid two-ring sketch: it has a core and every face belongs to the core or to the shell -/
+def Sketch.solid (s : Sketch) : Bool := !s.core.isEmpty && s.core.length + s.shell.length == s.quads.length
+
+/-- the table facts the round-shape finder relies on: the points `[1:3]` of the shell faces are exactly the rim
+    points, no core point lies on the rim and, for solid sketches, every other point belongs to the core -/
+def shapeOk (s : Sketch) : Bool :=
+  (List.range s.nPts).all (fun k =>
+      (s.shellOuterPts.contains k == s.isRim k) && !(s.corePts.contains k && s.isRim k)
+        && (!s.solid || s.corePts.contains k || s.isRim k))
+    && s.shellOuterPts.all (fun k => decide (k < s.nPts)) && s.corePts.all (fun k => decide (k < s.nPts))
+
 /-! ## view-point re-orientation -/
 
 inductive Err where
@@ -276,8 +296,8 @@ def Hex.toList (P : Hex) : List V3 := (List.range 8).map P
 
 def relabel (P : Hex) (s : Nat → Nat) : Hex := fun i => P (s i)
 
-/-- an index list as a function (identity outside the list) -/
-def perm (l : List Nat) : Nat → Nat := fun i => l.getD i i
+/-- an index list as a function -/
+def perm (l : List Nat) : Nat → Nat := fun i => l.getD i 0
 
 /-- the four corners of side `s` (0 bottom, 1 top, 2 left, 3 right, 4 front, 5 back — the order of
     `FACE_MAP`) in the cyclic order that is counter-clockwise seen from outside a right-handed block -/
